@@ -51,11 +51,17 @@ def run(ctx):
         return
     core.build_harness(bins=["solve"])
     rng = ctx.rng
-    progs, items = sc.fragment_items(rng, ctx.n(36, 700), 6, 6, 0)
+    progs, items = sc.fragment_items(rng, ctx.n(24, 600), 6, 6, 0,
+                                     extra=[(pg.shape_andor, ctx.n(160, 2500)), (pg.shape_size_boundary, ctx.n(8, 60))])
     items = [it for it in items if not pg.has_exists(it.goal)]
     solvers = collections.OrderedDict((k, v[0]) for k, v in CONFIGS.items())
     t0 = time.time()
-    mism, perr = sc.run_items(items, solvers=solvers, cpu=ctx.n(4, 6), timeout=ctx.n(600, 3000))
+    # the propositional and-or programs never come near a size limit: default configurations only
+    small = [it for it in items if it.shape.startswith("andor")]
+    other = [it for it in items if not it.shape.startswith("andor")]
+    mism, perr = sc.run_items(other, solvers=solvers, cpu=ctx.n(4, 6), timeout=ctx.n(600, 3000))
+    m2, p2 = sc.run_items(small, solvers=collections.OrderedDict((k, solvers[k]) for k in ("slg", "rec")), cpu=ctx.n(4, 6), timeout=ctx.n(600, 3000))
+    mism, perr = mism + m2, perr + p2
     phase["solvers"] = round(time.time() - t0, 1)
     t0 = time.time()
     if mism:
@@ -87,7 +93,7 @@ def run(ctx):
         if truth == 2 or codes[2 * k + 1] != 1:
             continue
         expected = "Unique" if truth == 1 else "NoSolution"
-        if any(logic.answer_kind(it.answers[c][1]) != expected for c in CONFIGS):
+        if any(logic.answer_kind(it.answers[c][1]) != expected for c in CONFIGS if c in it.answers):
             need.append(k)
     sexprs = [(["P%d" % items[k].pidx, "g%d" % k],
                "match goal_stats %d P%d [] [] g%d with Some (m, n) => (m * 100000 + n)%%N | None => 0%%N end" % (FUEL, items[k].pidx, k)) for k in need]
@@ -113,6 +119,8 @@ def run(ctx):
         msize, natoms = stats // 100000, stats % 100000
         verdicts["true" if truth == 1 else "false"] += 1
         for cname, (sv, max_size, od) in CONFIGS.items():
+            if cname not in it.answers:
+                continue
             ans = it.answers[cname][1]
             kind = logic.answer_kind(ans)
             within = stats != 0 and msize <= max_size and (od is None or natoms + 4 <= od)
@@ -157,7 +165,7 @@ def run(ctx):
             ctx.violation(d)
         if truth in (0, 1):
             ctx.sample({"program": it.text[:300], "goal": it.goal_text, "oracle": bool(truth),
-                        "answers": {c: logic.answer_kind(it.answers[c][1]) for c in CONFIGS}})
+                        "answers": {c: logic.answer_kind(it.answers[c][1]) for c in CONFIGS if c in it.answers}})
 
     total = max(1, len(items) * len(CONFIGS))
     ctx.cov["rule"] = "evaluations = (program, closed goal, solver configuration) triples judged against the oracle; non-trivial = goal is not a bare atom, or comes from a deliberate shape, or is true; distinct by (program, goal, configuration)"
